@@ -22,6 +22,7 @@ def fail(node, why):
 
 # ---------------------------------------------------------------- types
 def ty_code(t):
+    if t == "adaptmap": return "adaptmap"
     if t == "Z": return "Z"
     if t == "F": return "F"
     if t == "B": return "bool"
@@ -270,9 +271,27 @@ class FnCtx:
         fail(target, "binding pattern")
 
     # ---------------------------------------------------------- statements (continuation passing)
+    def to_adaptmap(self, code, t, node):
+        if t == "none": return "AMNone"
+        if t == "unit": return "AMEmpty"
+        if isinstance(t, tuple) and t[0] == "opt" and isinstance(t[1], tuple) and t[1][0] == "list":
+            return "(match %s with Some l__ => AMList l__ | None => AMNone end)" % code
+        fail(node, "value %r where a bin map (None, () or a list of pairs) is expected" % (t,))
+
     def finish(self, code, t, node):
         """the value of the whole function"""
         want = self.ret
+        if want == ("tuple", ["adaptmap", "adaptmap"]):
+            if not (isinstance(node, ast.Return) and isinstance(node.value, ast.Tuple) and len(node.value.elts) == 2):
+                fail(node, "a pair of bin maps must be returned as a literal pair")
+            parts = []
+            for e in node.value.elts:
+                c, te = self.ex(e, self.cur_env)
+                parts.append(self.to_adaptmap(c, te, node))
+            code = "(%s, %s)" % tuple(parts)
+            if self.mut: code = "(self, %s)" % code
+            if self.partial: code = "(Done %s)" % code
+            return code
         if want == "optint":
             if t == "unit": code = "OITuple0"
             elif t == "none": code = "OINone"
@@ -295,6 +314,7 @@ class FnCtx:
         return code
 
     def block(self, stmts, env, k):
+        self.recv_ok = lambda n, env=env: isinstance(env.get(n), tuple) and env[n][0] == "rec" and env[n][1] == self.kernel.record
         if not stmts: return k(env)
         return self.stmt(stmts[0], env, lambda e: self.block(stmts[1:], e, k))
 
@@ -308,9 +328,9 @@ class FnCtx:
                             if isinstance(x, ast.Name) and x.id not in out: out.append(x.id)
                             if isinstance(x, ast.Attribute) and ast.unparse(x.value) == "self" and "self" not in out \
                                     and x.attr not in self.kernel.dropped: out.append("self")
-                if isinstance(n, ast.Call) and isinstance(n.func, ast.Attribute) and ast.unparse(n.func.value) == "self":
+                if isinstance(n, ast.Call) and isinstance(n.func, ast.Attribute) and isinstance(n.func.value, ast.Name):
                     m = self.kernel.method(n.func.attr)
-                    if m is not None and m.get("mut") and "self" not in out: out.append("self")
+                    if m is not None and m.get("mut") and n.func.value.id not in out: out.append(n.func.value.id)
                 if isinstance(n, ast.Call) and isinstance(n.func, ast.Attribute) and n.func.attr == "append" \
                         and isinstance(n.func.value, ast.Name) and n.func.value.id not in out: out.append(n.func.value.id)
         return out
@@ -329,6 +349,9 @@ class FnCtx:
         """self.m(args) for a translated method; k_val(code_of_result, type, env) -> code of the rest"""
         m = self.kernel.method(node.func.attr)
         if m is None: fail(node, "call of an untranslated method")
+        rv = node.func.value.id           # the receiver: self, or another variable of the record type
+        if rv != "self" and not (isinstance(env.get(rv), tuple) and env[rv][0] == "rec" and env[rv][1] == self.kernel.record):
+            fail(node, "receiver of another type")
         if len(node.args) + len(node.keywords) > len(m["params"]): fail(node, "too many arguments")
         argc = []
         given = {}
@@ -340,14 +363,14 @@ class FnCtx:
                 argc.append(self.coerce(c, t, pt, node))
             elif isinstance(pt, tuple) and pt[0] == "opt": argc.append("None")
             else: fail(node, "missing argument %s" % pn)
-        head = "(%s %s%s %s)" % (self.kernel.mname(m["py"]), "fuel " if m.get("partial") else "", "self", " ".join(argc))
+        head = "(%s %s%s %s)" % (self.kernel.mname(m["py"]), "fuel " if m.get("partial") else "", rv, " ".join(argc))
         head = head.replace("  ", " ").replace(" )", ")")
         rt = m["ret"]
         tname = "r__"
         if m.get("mut"):
             env2 = dict(env)
             body = k_val(tname, rt, env2)
-            pat = "'(self, %s)" % tname
+            pat = "'(%s, %s)" % (rv, tname)
         else:
             body = k_val(tname, rt, env)
             pat = tname
@@ -357,7 +380,11 @@ class FnCtx:
         return "(let %s := %s in\n %s)" % (pat, head, body)
 
     def is_self_call(self, node):
-        return isinstance(node, ast.Call) and isinstance(node.func, ast.Attribute) and ast.unparse(node.func.value) == "self"
+        """a call of a translated method on self or on another object of the same record type"""
+        if not (isinstance(node, ast.Call) and isinstance(node.func, ast.Attribute) and isinstance(node.func.value, ast.Name)): return False
+        name = node.func.value.id
+        if name == "self": return True
+        return getattr(self, "recv_ok", lambda n: False)(name) and self.kernel.method(node.func.attr) is not None
 
     def stmt(self, s, env, k):
         kern = self.kernel
@@ -413,6 +440,8 @@ class FnCtx:
             ast.copy_location(new, s); ast.fix_missing_locations(new)
             return self.stmt(new, env, k)
         if isinstance(s, ast.Return):
+            self.cur_env = env
+            if self.ret == ("tuple", ["adaptmap", "adaptmap"]): return self.finish(None, None, s)
             if s.value is None or (isinstance(s.value, ast.Constant) and s.value.value is None):
                 return self.finish("tt", "none", s)
             if self.is_self_call(s.value):
@@ -669,7 +698,8 @@ def kernels(tr):
                 dropped={"_bins", "_numpy_bins"}, defaults={},
                 rewrite={"self.bin_width": "self._bin_width", "self.includes_right_edge": "self._includes_right_edge",
                          "self.numpy_bins[0]": "self.first_edge", "self.numpy_bins[-1]": "self.last_edge",
-                         "self.bin_count": "self._bin_count"},
+                         "self.bin_count": "self._bin_count", "other.bin_width": "other._bin_width", "other.bin_count": "other._bin_count",
+                         "other.as_fixed_width()": "other", "other.copy()": "other"},      # the operand arrives as a private fixed-width copy
                 methods=[
                     dict(py="first_edge", params=[], ret="F", prop=True),
                     dict(py="last_edge", params=[], ret="F", prop=True),
@@ -679,6 +709,7 @@ def kernels(tr):
                     dict(py="_force_bin_existence_single", params=[("value", "F"), ("includes_right_edge", ("opt", "B"))], ret="optint", mut=True, partial=True),
                     dict(py="_set_min_and_count", params=[("times_min", "Z"), ("bin_count", "Z")], ret="unit", mut=True),
                     dict(py="_force_new_min_max", params=[("new_min", "Z"), ("new_max", "Z")], ret=("opt", ("list", ("tuple", ["Z", "Z"]))), mut=True),
+                    dict(py="_adapt", params=[("other", ("rec", "fwst", True))], ret=("tuple", ["adaptmap", "adaptmap"]), mut=True, partial=True),
                 ])
     tr.add_record_kernel(fw)
     st = Kernel(name="ST", file="statistics.py", cls="Statistics", record="pystats", prefix="ps", ctor_name="Statistics",
